@@ -13,12 +13,20 @@ obligation for the structural rule that checks the post-loop test.
 """
 from facts import strip, lit_value, pp, loc
 from norm import nbody, walk_all, unblock
-from lensum import (Interp, Poly, PathVal, Opaque, TupleVal, Cases, ConstBytes, Unsupported, UNIT,
+from lensum import (BoolVal, Interp, Poly, PathVal, Opaque, TupleVal, Cases, ConstBytes, Unsupported, UNIT,
                     as_poly, mix, ind_not, g_val, g_len, g_enc, g_varint, g_sum, fmt_path, _P)
 
 
-class Diverge(Exception):
+class _DivergeBase(Exception):
     pass
+
+
+class Diverge(_DivergeBase):
+    pass
+
+
+class LoopBreak(Diverge):
+    """`break` out of the innermost loop (a divergence of the path inside the loop body)."""
 
 
 class ErrVal:
@@ -52,6 +60,7 @@ class ReadInterp(Interp):
         self.ncond = 0
         self.stores = {}       # symbol path -> list of destination paths
         self.cmp_atoms = {}    # fresh condition atom -> (op, lhs poly, rhs poly)
+        self._breaks = []      # (in then-branch?, indicator) of conditional breaks seen while evaluating a loop body
         self.free_syms = set() # symbols standing for loop-exit values that a later guard may pin down
 
     def fresh(self, prefix="n"):
@@ -121,6 +130,9 @@ class ReadInterp(Interp):
     def e_Return(self, fr, e):
         raise Diverge()
 
+    def e_Break(self, fr, e):
+        raise LoopBreak()
+
     def e_Try(self, fr, e):
         v = self.eval(fr, e["e"])
         if isinstance(v, ErrVal):
@@ -161,6 +173,10 @@ class ReadInterp(Interp):
             self.consumed = c0
             try:
                 v = fn()
+            except LoopBreak:
+                self._breaks.append((fn is then_fn, ind))
+                del self.reads[r0:]
+                return None
             except Diverge:
                 del self.reads[r0:]
                 return None
@@ -244,7 +260,7 @@ class ReadInterp(Interp):
     # -- conditions
     def cond(self, fr, e):
         e = unblock(e)
-        if e.get("k") == "Binary" and e["op"] in ("Ne", "Eq"):
+        if e.get("k") == "Binary" and e["op"] in ("Ne", "Eq", "Gt", "Lt", "Ge", "Le"):
             try:
                 a = as_poly(self.eval(fr, e["l"]), "cmp")
                 b = as_poly(self.eval(fr, e["r"]), "cmp")
@@ -253,7 +269,10 @@ class ReadInterp(Interp):
             if a is not None:
                 d = a - b
                 if d.is_zero():
-                    return Poly.const(1 if e["op"] == "Eq" else 0)
+                    return Poly.const(1 if e["op"] in ("Eq", "Ge", "Le") else 0)
+                if d.is_const() and e["op"] not in ("Eq", "Ne"):
+                    cv = d.const_value()
+                    return Poly.const(1 if {"Gt": cv > 0, "Lt": cv < 0, "Ge": cv >= 0, "Le": cv <= 0}[e["op"]] else 0)
                 if not d.is_const():
                     self.ncond += 1
                     atom = ("cond", ("$c%d" % self.ncond,))
@@ -277,6 +296,22 @@ class ReadInterp(Interp):
         p = pat
         while p.get("k") == "Deref":
             p = p["sub"]
+        if isinstance(scrut, tuple) and scrut and scrut[0] == "checked" and p.get("k") == "Variant" and p.get("adt") == "core::option::Option":
+            # the Option returned by checked_sub: None is the refused (too short) frame, which is not an accepting path
+            if p["variant"] == "None":
+                return Poly.const(0), (lambda: None)
+            sub = p["subs"][0]["pat"] if p.get("subs") else {"k": "Wild"}
+            while sub.get("k") == "Deref":
+                sub = sub["sub"]
+            if sub.get("k") == "Const" and isinstance(sub.get("val"), int):
+                d = scrut[1] - Poly.const(sub["val"])
+                if d.is_zero():
+                    return Poly.const(1), (lambda: None)
+                self.ncond += 1
+                atom = ("cond", ("$c%d" % self.ncond,))
+                self.cmp_atoms[atom] = ("Eq", scrut[1], Poly.const(sub["val"]))
+                return Poly.atom(atom), (lambda: None)
+            return Poly.const(1), (lambda: self.bind(fr, sub, scrut[1]))
         if p.get("k") == "Variant" and p.get("adt") == "core::option::Option":
             if isinstance(scrut, PathVal):
                 a = ("some", scrut.path)
@@ -371,12 +406,28 @@ class ReadInterp(Interp):
     def e_Assign(self, fr, e):
         l = strip(e["l"])
         v = self.eval_quiet(fr, e["r"])
+        if l.get("k") == "Var" and isinstance(fr.env.get(l["var"]["id"]), tuple) and fr.env[l["var"]["id"]][:1] == ("elemref",):
+            _k, avid, i = fr.env[l["var"]["id"]]
+            arr = fr.env.get(avid)
+            if isinstance(arr, TupleVal):
+                items = list(arr.items)
+                items[i] = v
+                fr.env[avid] = TupleVal(items)
+            return UNIT
         if e["l"].get("k") == "Deref" and l.get("k") == "Var" and isinstance(fr.env.get(l["var"]["id"]), PathVal):
             self.store(fr.env[l["var"]["id"]].path, v, e["r"])
             return UNIT
         if l.get("k") == "Var":
             fr.env[l["var"]["id"]] = v
             return UNIT
+        if l.get("k") == "Field":
+            try:
+                base = self.eval(fr, l["lhs"])
+            except Unsupported:
+                base = None
+            if isinstance(base, tuple) and base and base[0] == "struct":
+                base[3][str(l["name"])] = v           # a local record (newtype counter, small state struct) updated in place
+                return UNIT
         try:
             target = self.eval(fr, e["l"])
         except Unsupported:
@@ -414,6 +465,14 @@ class ReadInterp(Interp):
                 return a + b if op == "Add" else a - b if op == "Sub" else a * b
             except Unsupported:
                 return Opaque("arith")
+        if op in ("Eq", "Ne", "Gt", "Lt", "Ge", "Le") and not getattr(self, "_in_cmp", False):
+            self._in_cmp = True
+            try:
+                return BoolVal(self.cond(fr, e))      # a comparison of lengths is a condition (possibly returned by a helper)
+            except (Unsupported, RecursionError):
+                return Opaque("binary %s" % op)
+            finally:
+                self._in_cmp = False
         self.eval_quiet(fr, e["l"])
         self.eval_quiet(fr, e["r"])
         return Opaque("binary %s" % op)
@@ -440,7 +499,57 @@ class ReadInterp(Interp):
         return Opaque("array")
 
     def e_Loop(self, fr, e):
-        raise Unsupported("loop at %s" % loc(e))
+        """A bottom-tested counter loop: `loop { reads; let rest = counter - n (checked); if rest == 0 { break } counter = rest }`.
+        Entered with counter >= 1 (an earlier `Some(0) => return` / `== 0 -> error` establishes it), it is the loop
+        `while counter > 0 { reads; counter -= n }`: same bytes per iteration, same exit."""
+        c0 = self.consumed
+        r0 = len(self.reads)
+        env0 = dict(fr.env)
+        known0 = dict(self.known)
+        saved_breaks, self._breaks = self._breaks, []
+        try:
+            try:
+                self.eval(fr, e["body"])
+            except LoopBreak:
+                raise Unsupported("loop that always breaks at %s" % loc(e))
+            except Diverge:
+                raise Unsupported("loop body never completes an iteration at %s" % loc(e))
+            breaks = self._breaks
+        finally:
+            self._breaks = saved_breaks
+        if len(breaks) != 1:
+            raise Unsupported("loop with %d conditional breaks at %s" % (len(breaks), loc(e)))
+        in_then, ind = breaks[0]
+        atoms = ind.atoms() if isinstance(ind, Poly) else ()
+        info = self.cmp_atoms.get(next(iter(atoms))) if len(atoms) == 1 else None
+        if not info:
+            raise Unsupported("loop exit condition at %s" % loc(e))
+        op, a, b = info
+        positive = (ind - Poly.atom(next(iter(atoms)))).is_zero()
+        exits_on_equal = (op == "Eq") == (in_then == positive)
+        if not exits_on_equal:
+            raise Unsupported("loop exit condition is not `next counter value == bound` at %s" % loc(e))
+        nxt = a - b
+        counter = None
+        for vid, val in fr.env.items():
+            if isinstance(val, Poly) and isinstance(env0.get(vid), Poly) and (val - nxt).is_zero() and not (val - env0[vid]).is_zero():
+                counter = vid
+        if counter is None:
+            raise Unsupported("loop counter at %s" % loc(e))
+        v0 = env0[counter]
+        dc = self.resolve(self.consumed - c0)
+        dd = self.resolve(v0 - nxt)
+        rd = self.reads[r0:]
+        del self.reads[r0:]
+        rec = {"fn_loc": loc(e), "cond": "loop until the rest is 0", "consumed": dc, "decrease": dd, "dist0": v0, "reads": rd, "node": e,
+               "exit_var": "counter"}
+        self.loops.append(rec)
+        self.reads.append(("loop", "until the rest is 0", rd))
+        self.consumed = c0 + v0
+        self.known = known0
+        fr.env = env0
+        fr.env[counter] = Poly()
+        return UNIT
 
     def e_For(self, fr, e):
         """`for _ in 0..n { reads }`: n iterations of a body that reads a fixed number of bytes."""
@@ -462,6 +571,23 @@ class ReadInterp(Interp):
             self.loops.append({"fn_loc": loc(e), "cond": "for _ in %s" % pp(it)[:40], "consumed": Poly.const(k), "decrease": Poly.const(k),
                                "dist0": n, "reads": rd, "node": e})
             self.reads.append(("loop", pp(it)[:40], rd))
+            return UNIT
+        # `for slot in arr.iter_mut()` over a local fixed-size array `[T; N]`: N iterations, slot = &mut arr[i]
+        import re
+        src = strip(it)
+        while src.get("k") == "Call" and src["fn"].get("name") in ("iter_mut", "iter", "into_iter", "as_mut", "as_mut_slice") and len(src["args"]) == 1:
+            src = strip(src["args"][0])
+        m = re.fullmatch(r"(?:&mut |&)?\[.*; (\d+)\]", (src.get("ty") or "")) if src.get("k") == "Var" else None
+        if m and int(m.group(1)) <= 8 and e["pat"].get("k") == "Binding":
+            n = int(m.group(1))
+            vid = src["var"]["id"]
+            cur = fr.env.get(vid)
+            if not isinstance(cur, TupleVal) or len(cur.items) != n:
+                cur = TupleVal([Opaque("array element")] * n)
+                fr.env[vid] = cur
+            for i in range(n):
+                fr.env[e["pat"]["var"]["id"]] = ("elemref", vid, i)
+                self.eval(fr, e["body"])
             return UNIT
         raise Unsupported("for loop in decoder at %s" % loc(e))
 
@@ -492,7 +618,7 @@ class ReadInterp(Interp):
     def e_While(self, fr, e):
         c = unblock(e["cond"])
         if c.get("k") != "Binary" or c["op"] not in ("Gt", "Lt", "Ne"):
-            raise Unsupported("loop condition %s" % pp(c)[:80])
+            return self._while_by_condition(fr, e, c)
         big, small = (c["l"], c["r"]) if c["op"] in ("Gt", "Ne") else (c["r"], c["l"])
         if c["op"] == "Ne" and lit_value(small) != 0 and lit_value(big) == 0:
             big, small = small, big
@@ -555,6 +681,75 @@ class ReadInterp(Interp):
         for vid in assigned - keep:
             if vid in fr.env:
                 fr.env[vid] = Opaque("loop-carried")
+        return UNIT
+
+    def _cmp_of(self, ind):
+        """(big, small) polynomials such that the condition is `big > small` / `big != small`, for a condition that evaluated
+        (through any helper methods) to one comparison of two lengths; None otherwise."""
+        if not isinstance(ind, Poly):
+            return None
+        atoms = ind.atoms()
+        if len(atoms) != 1:
+            return None
+        (atom,) = atoms
+        info = self.cmp_atoms.get(atom)
+        if not info:
+            return None
+        op, a, b = info
+        positive = (ind - Poly.atom(atom)).is_zero()
+        negated = (ind - ind_not(Poly.atom(atom))).is_zero()
+        if not positive and not negated:
+            return None
+        if negated:
+            op = {"Eq": "Ne", "Ne": "Eq", "Gt": "Le", "Lt": "Ge", "Ge": "Lt", "Le": "Gt"}[op]
+        if op in ("Gt", "Ne"):
+            return (a, b) if not (op == "Ne" and a.is_zero()) else (b, a)
+        if op == "Lt":
+            return (b, a)
+        return None
+
+    def _while_by_condition(self, fr, e, c):
+        """`while <cond>` where the condition is not a plain comparison of two places but evaluates to one (e.g.
+        `while !budget.is_exhausted()` with `is_exhausted(&self) -> bool { self.0 == 0 }`)."""
+        def dist():
+            cmp_ = self._cmp_of(self.cond(fr, c))
+            if cmp_ is None:
+                raise Unsupported("loop condition %s" % pp(c)[:80])
+            return cmp_
+        b0, s0 = dist()
+        d0 = b0 - s0
+        c0 = self.consumed
+        r0 = len(self.reads)
+        known0 = dict(self.known)
+        try:
+            self.eval(fr, e["body"])
+        except Diverge:
+            raise Unsupported("loop body never completes an iteration at %s" % loc(e))
+        b1, s1 = dist()
+        d1 = b1 - s1
+        dc = self.resolve(self.consumed - c0)
+        dd = self.resolve(d0 - d1)
+        rd = self.reads[r0:]
+        del self.reads[r0:]
+        rec = {"fn_loc": loc(e), "cond": pp(c), "consumed": dc, "decrease": dd, "dist0": d0, "reads": rd, "node": e}
+        self.loops.append(rec)
+        self.reads.append(("loop", pp(c), rd))
+        self.consumed = c0 + d0
+        self.known = known0
+        if not s1.is_zero() and not s1.is_const():
+            raise Unsupported("loop bound %s" % pp(c)[:80])
+        # the loop leaves when the counter reaches the bound: every place that holds the counter now holds the bound
+        def fix(v):
+            if isinstance(v, Poly) and (v - b1).is_zero():
+                return s1
+            return v
+        for vid, val in list(fr.env.items()):
+            if isinstance(val, tuple) and val and val[0] == "struct":
+                for k2, v2 in list(val[3].items()):
+                    val[3][k2] = fix(v2)
+            else:
+                fr.env[vid] = fix(val)
+        rec["exit_var"] = pp(c)[:40]
         return UNIT
 
     # -- calls
@@ -637,6 +832,22 @@ class ReadInterp(Interp):
             v = self.eval_quiet(fr, args[0])
             if isinstance(v, tuple) and v and v[0] == "varlen":
                 return g_varint(v[1])
+        # the read primitives: the facts established by T-prims (evaluated), not re-derived from their bodies
+        prim = {"common::utils::read_u8": 1, "common::utils::read_u16": 2, "common::utils::read_u32": 4}.get(res)
+        if prim is not None:
+            for a in args:
+                self.eval_quiet(fr, a)
+            sym = self.fresh("n")
+            self.consumed = self.consumed + Poly.const(prim)
+            self.reads.append(("call", res, [("read_exact", str(prim))], sym[0]))
+            return g_val(sym)
+        if res == "common::utils::read_bytes":
+            for a in args:
+                self.eval_quiet(fr, a)
+            sym = self.fresh("n")
+            self.consumed = self.consumed + Poly.const(2) + g_val(sym)
+            self.reads.append(("call", res, [("call", "common::utils::read_u16", [("read_exact", "2")], sym[0]), ("read_exact", "val(%s)" % sym[0])], sym[0]))
+            return BufVal(g_val(sym))
         callee = self.F.fns.get(res)
         local = callee is not None and fn.get("krate") == self.F.data["crate"]
         if local and callee.get("is_async"):
@@ -665,7 +876,7 @@ class ReadInterp(Interp):
         if local and not callee.get("is_async") and callee.get("thir") and name not in _WRAPPERS and \
                 name not in ("from_u8", "is_invalid", "value", "new_with") and self.depth < 10:
             vals = [self.eval_quiet(fr, a) for a in args]
-            if any(isinstance(v, Poly) and not v.is_const() for v in vals):
+            if any((isinstance(v, Poly) and not v.is_const()) or (isinstance(v, tuple) and v and v[0] == "struct") for v in vals):
                 try:
                     return self.run_fn(res, vals)
                 except Unsupported:
